@@ -1,4 +1,5 @@
 \* transaction status under the three assumptions: EXPECTED VIOLATION of StatusCurrent (no re-evaluation after a reorg notice)
+\* measured (8 TLC workers shared over 3 runs): 4916 distinct / 7767 generated states, depth 8, 5.1s - ends with the expected violation of StatusCurrent
 CONSTANTS NSubs = 1 NConn = 1 InitLen = 1 MaxLen = 3 MaxTag = 3 MaxReverts = 1 MaxL1 = 1 MaxPc = 1 MaxTx = 1 MaxGw = 2 MaxRecv = 0 MaxTicks = 2 MaxBack = 3 MaxGot = 6
   Ver = 10 Kinds <- KStatus StartAtL1 <- NoL1 NoLag = TRUE QuietSub = TRUE ReorgPrio = TRUE TeeStage = FALSE Window = FALSE FixL1None = FALSE FixL1Order = FALSE BlockIds <- BidsLatest
 INIT Init
